@@ -79,26 +79,6 @@ def reference_inverse(model, z):
     return x.numpy().astype(np.float64), ld.numpy().astype(np.float64)
 
 
-def grid_integral(log_prob_fn, lo, hi, n=600, chunk=120000):
-    """Midpoint rule for exp(log_prob) over the box [lo, hi] (2-d) with n x n cells."""
-    lo = np.asarray(lo, dtype=np.float64)
-    hi = np.asarray(hi, dtype=np.float64)
-    hx, hy = (hi - lo) / n
-    gx = lo[0] + (np.arange(n) + 0.5) * hx
-    gy = lo[1] + (np.arange(n) + 0.5) * hy
-    X, Y = np.meshgrid(gx, gy, indexing="ij")
-    pts = np.column_stack([X.ravel(), Y.ravel()])
-    total = 0.0
-    nonfinite = 0
-    for i in range(0, len(pts), chunk):
-        lp = np.asarray(log_prob_fn(pts[i:i + chunk]), dtype=np.float64)
-        bad = np.isnan(lp) | (lp == np.inf)
-        nonfinite += int(bad.sum())
-        lp = np.where(bad, -np.inf, lp)
-        total += float(np.sum(np.exp(lp)))
-    return total * hx * hy, nonfinite
-
-
 def quantile_edges(samples, lo_q=0.05, hi_q=0.95, k=60, m=10):
     """Cell edges per axis: k intervals between equally spaced sample quantiles, each split into m equal parts.  The cells follow the marginal
     density, so a heavy-tailed or sharply peaked flow is resolved where its mass is."""
